@@ -54,6 +54,9 @@ CHECKS["C07"] = dict(cat="exploration", tech="exhaustive enumeration of compu-me
 CHECKS["C15"] = dict(cat="model_checking", tech="exhaustive enumeration of layer hierarchies (all connected DAGs over the five layer types up to 3/4 layers) x all placements of simple/complex comparam instances with/without protocol qualifier and omitted (sub-)values; reference resolution model",
    text="For every hierarchy and every placement vector the databases are emitted as ODX, loaded through the real loader, and comparam_refs, get_comparam (name x protocol incl. Protocol objects), get_value/get_subvalue and 13 typed accessors are compared on every layer with the reference: closest layer wins per (parameter, protocol), protocol-specific before generic, defaults of the specification as fallback, numeric content of the typed accessors.",
    note="Trusted: odxmodel/refcomparam.py. A generic instance in a strictly closer layer versus a protocol-specific one farther away is DON'T-CARE; unrelated parents offering different instances: any offered one is accepted.", ref="5/C15")
+CHECKS["C06"] = dict(cat="model_checking", tech="exhaustive enumeration of all ordered service sets (1..2/3 of 12 shapes x 3 global-negative-response configurations) x all byte strings up to length 3/4 over the layer's byte alphabet + all own encodings, three-valued reference dispatcher",
+   text="Every layer of the bounded space is emitted, loaded through the real loader and every message of the bounded space is decoded with DiagLayer.decode / decode_response; reported (service, coding object) sets must contain every MUST entry and no MUST-NOT entry of the reference, DecodeError only if nothing must match, decoded parameter dictionaries equal the reference values, a response is found through its request, service_groups equals the reference for all 256 SIDs.",
+   note="Trusted: odxmodel/refdispatch.py. Multiplicity of Messages, trailing bytes, non-prefix CODED-CONST mismatches and echoes straddling the prefix are MAY. One known finding (empty-prefix services are never candidates) is listed in KNOWN_FINDINGS.txt.", ref="5/C06")
 NOT_BUILT_REASON = "check not built yet in this revision of /verif (design in DESIGN.md section 5); not claimed"
 
 def main():
